@@ -1,4 +1,18 @@
 ----------------------------- MODULE FindingsC13 -----------------------------
-EXTENDS Sequences
-Class(line, bad) == "none"
+(* Classes of the open findings of C13: minimal syntactic trigger /\ the specific wrong observation.             *)
+EXTENDS Sequences, FiniteSets
+
+(* F-C13-4 / F-C13-5: a body default is applicable, default-setting is on, and the body is sent in a media type   *)
+(* other than application/json: the library decodes it, installs the default in the decoded value and then finds  *)
+(* no encoder to write it back ("rewriting failed"): a valid request is rejected with a body error, the body       *)
+(* readable afterwards is still the one received; the library-installed GetBody yields nothing from then on (the   *)
+(* failed encodeBody clobbered the variable its closure captured), so that a later validation leaves an empty body *)
+Consequences == {"valid_request_accepted", "defaults_exactly_once", "getbody_yields_same", "second_validation_changes_nothing"}
+Class(line, bad) ==
+   IF /\ line.c.kind = "body" /\ "mt" \in DOMAIN line.c /\ line.c.mt # "application/json" /\ ~line.c.skip
+      /\ "valid_request_accepted" \in bad /\ bad \subseteq Consequences
+      /\ "parts1" \in DOMAIN line /\ line.parts1 = <<"body">> /\ line.after1 = line.sent
+   THEN IF line.c.mt \in {"application/x-www-form-urlencoded", "multipart/form-data"}
+        THEN "rewrite_no_encoder_form" ELSE "rewrite_no_encoder_json_yaml"
+   ELSE "none"
 =============================================================================
